@@ -12,6 +12,7 @@ import Iodata.Lemmas.Fmt.Sdf
 import Iodata.Lemmas.Fmt.Pdb
 import Iodata.Lemmas.Fmt.PdbConect
 import Iodata.Lemmas.Fmt.Fchk
+import Iodata.Lemmas.Fmt.Cube
 import Iodata.Gen.Layouts
 
 namespace Iodata.Props.C15
@@ -117,6 +118,29 @@ theorem fchk_generations (L : Fchk.Layout) (hL : Fchk.LayoutOK L) (R : Fchk.RunT
   rw [hid] at h2
   refine ⟨h2, ?_⟩
   intro x₂ h3
+  rw [h2] at h3
+  rw [← Except.ok.inj h3]
+
+/-! ## Cube -/
+
+/-- Cube: the reloaded object is a fixed point (the zero-core-charge replacement happens once) and stays in the domain. -/
+theorem cube_norm_stable (L : Cube.Layout) (hL : Cube.LayoutOK L) (o : Cube.Obj) (h : Cube.Dom L o) :
+    Cube.norm L (Cube.norm L o) = Cube.norm L o ∧ Cube.Dom L (Cube.norm L o) :=
+  ⟨Cube.norm_idem L hL o, Cube.dom_norm L hL o h⟩
+
+/-- Cube: generations 2 and 3 coincide. -/
+theorem cube_generations (L : Cube.Layout) (hL : Cube.LayoutOK L) (o o₁ : Cube.Obj) (h : Cube.Dom L o)
+    (h₁ : Cube.load L (Cube.dump L o) = .ok o₁) :
+    Cube.load L (Cube.dump L o₁) = .ok o₁ ∧
+    ∀ o₂, Cube.load L (Cube.dump L o₁) = .ok o₂ → Cube.dump L o₂ = Cube.dump L o₁ := by
+  have e : o₁ = Cube.norm L o := by
+    have := Cube.load_dump L hL o h
+    rw [this] at h₁; exact (Except.ok.inj h₁).symm
+  have h2 := Cube.load_dump L hL o₁ (e ▸ Cube.dom_norm L hL o h)
+  have hid : Cube.norm L o₁ = o₁ := by rw [e]; exact Cube.norm_idem L hL o
+  rw [hid] at h2
+  refine ⟨h2, ?_⟩
+  intro o₂ h3
   rw [h2] at h3
   rw [← Except.ok.inj h3]
 
